@@ -20,6 +20,14 @@ def jobs(pid, tier):
         J.append(Job('k6_autoref_ops', dict(N=5, L=3) if q else dict(N=6, L=3),
                      need_outcomes=['returned:' + o for o in
                                     ('~', '&', '|', 'implies', 'equiv', '<=', '<', '==', '!=', 'ite')]))
+    if pid == 'C06':
+        J.append(Job('k8_gc', dict(N=4, L=2, roots=0, nondet=True), need_outcomes=['collected', 'nothing_to_collect']))
+        J.append(Job('k8_gc', dict(N=5, L=3, roots=0, nondet=not q), need_outcomes=['collected', 'nothing_to_collect']))
+        J.append(Job('k8_gc', dict(N=4, L=3, roots=2, nondet=True), need_outcomes=['collected', 'nothing_to_collect']))
+    if pid == 'C07':
+        J.append(Job('k7_swap', dict(N=4, L=2, x=0, K=2), need_outcomes=['swapped']))
+        J.append(Job('k7_swap', dict(N=4, L=3, x=0, K=2), need_outcomes=['swapped']))
+        J.append(Job('k7_swap', dict(N=4, L=3, x=1, K=2, by='name'), need_outcomes=['swapped']))
     return J
 
 
